@@ -36,6 +36,7 @@ struct PrintInfo {
     std::set<std::string> labels;     // fold, prefix, fold+prefix, triple, sq, dq, bare, text, text-in-list, key-triple, frames, comment, len2048 ...
     int delim_kinds = 0;
     int max_line = 0;
+    std::vector<std::string> order;   // units in print order: "B <code>", "I <name>", "L <loop index in its container>", "F <code>", "E" (frame end)
     bool ok = true;                   // false: some value could not be presented (generator bug) -- case must be discarded
     std::string why;
 };
